@@ -3,7 +3,7 @@
 # Apply a seeded change to a scratch worktree of /repo (never to /repo itself) and run the check
 # against it FROM A SNAPSHOT of /verif (/tmp/verif-snap, refreshed with `try_mut.sh --snapshot`),
 # so that editing /verif meanwhile does not disturb the run. Evidence goes to /tmp/mut-evidence.
-S=/tmp/verif-snap
+S=${MUTS:-/tmp/verif-snap}
 if [ "$1" = "--snapshot" ]; then
   rm -rf $S; mkdir -p $S; rsync -a --exclude build --exclude .git /verif/ $S/; echo "snapshot of /verif at $S"; exit 0
 fi
